@@ -121,6 +121,54 @@ def run(ck):
         return
     rng = ck.rng
     L = 5 if ck.tier == "quick" else 6
+    # ---------------- phase 0: buffer discipline and large fields (judged on the implementation; the theorems C20_len / C20_roundtrip* say what
+    # must hold for every size, these cases tie MarshalTo on reused buffers, decoded strings vs. the caller's buffer, back-to-back messages and
+    # length prefixes of 5 bytes to the code)
+    xl, xcases = [], []
+    special = [b"", b"a", b"\x00", b"\x01", b"\x7f", b"\x00\x01\x7f", b"k" * 127, b"k" * 128, b"\x7f" * 3, b"\x01\x00"]
+    for k in special:
+        for v in special:
+            for fill in (0x01, 0x7f, 0xff, 0x00):
+                xcases.append(("X", k, v, fill))
+    for _ in range(300 if ck.tier == "quick" else 6000):
+        xcases.append(("X", bytes(rng.randrange(256) for _ in range(rng.choice([0, 0, 1, 3, 130]))),
+                       bytes(rng.randrange(256) for _ in range(rng.choice([0, 0, 1, 2, 200]))), rng.choice([0, 1, 0x7f, 0x80, 0xff])))
+    big = [(1 << 30, (1 << 28) - 1, 0), (1 << 30, 1 << 28, 0), (1 << 30, 0, 1 << 28), (1 << 30, (1 << 21), (1 << 21) - 1), (1 << 30, 1 << 28, 5)]
+    if ck.tier != "quick":
+        big += [(1 << 31, (1 << 28) + 1, 1 << 28)]
+    xl = ["X %s %s %d" % (B(a).go(), B(b).go(), fill) for (_t, a, b, fill) in xcases] + ["L %d %d %d" % t for t in big]
+    xres = run_go(ck, binp, xl, "buf")
+    if xres is None:
+        return
+    xres = [l for l in xres if l.startswith(("X ", "L "))]
+    nb = 0
+    for line, r in zip(xl, xres):
+        ck.count_case("buf " + line, nontrivial=True)
+        f = r.split()
+        what = None
+        if f[1] == "panic":
+            what = "the codec crashed (Go panic)"
+        elif f[0] == "X" and f[1] == "ok":
+            l, n, same, tail, stable, stable_b, seq = int(f[2]), int(f[3]), f[4] == "true", f[5] == "true", f[6] == "true", f[7] == "true", f[8] == "true"
+            if n != l:
+                what = "MarshalTo wrote %d bytes, MarshalLen declares %d" % (n, l)
+            elif not same:
+                what = "MarshalTo into a reused (pre-filled) buffer produces other bytes than MarshalBinary: it relies on the buffer's old contents"
+            elif not tail:
+                what = "MarshalTo wrote behind the declared length"
+            elif not (stable and stable_b):
+                what = "the decoded pair changes when the caller overwrites the input buffer afterwards (decoded strings alias the input)"
+            elif not seq:
+                what = "a second message after a valid encoding is not decoded from the consumed length"
+        elif f[0] == "L" and f[1] == "ok":
+            if int(f[2]) != int(f[3]):
+                what = "MarshalLen declares %s bytes, MarshalBinary produced %s" % (f[2], f[3])
+            elif f[4] != "true":
+                what = "large pair does not round-trip"
+        if what and nb < 4:
+            nb += 1
+            ck.violation("%s [case: %s]" % (what, line[:160]), {"kind": "monitor:buffer_discipline", "go_input_line": line[:400], "go_output": r})
+    ck.cov["buffer_discipline_cases"] = len(xl)
     # ---------------- phase 1: encode
     pairs = gen_pairs(ck, 150 if ck.tier == "quick" else 3000)
     enc_lines, enc_cases = [], []
